@@ -163,6 +163,7 @@ def run(ctx: Ctx) -> None:
     _memo.rule_subject_drift(ctx, ['graphiq/solvers/time_reversed_solver.py', 'graphiq/backends/stabilizer/functions/stabilizer.py'])
     _memo.rule_isinstance_on_class(ctx, ['graphiq/solvers/time_reversed_solver.py', 'graphiq/backends/stabilizer/functions/stabilizer.py'])
     _memo.rule_zip_truncation(ctx, ['graphiq/solvers/time_reversed_solver.py', 'graphiq/backends/stabilizer/functions/stabilizer.py'])
+    _memo.rule_search_fallthrough(ctx, ['graphiq/solvers/time_reversed_solver.py', 'graphiq/backends/stabilizer/functions/stabilizer.py'])
     repo = ctx.repo
     handled = mirror.rule_mirror(ctx)
     mirror.rule_guarded_first(ctx)
@@ -258,6 +259,7 @@ def rule_target_shared(ctx: Ctx) -> None:
 
 
 KNOCKOUTS = [
+    Knockout("absorption-reads-search-loop-variable", TRS, sub_once('        gate_list = self._change_pauli_type(tableau, generator_index, photon_index, "z")\n        self._add_one_qubit_gate(circuit, gate_list, photon_index)\n', '        gate_list = self._change_pauli_type(tableau, i, photon_index, "z")\n        self._add_one_qubit_gate(circuit, gate_list, photon_index)\n'), "search.fallthrough", "_add_photon_absorption"),
     Knockout("sign-repair-without-photon-offset", TRS, sub_nth("            transform.x_gate(tableau, self.n_photon + emitter_index)\n", "            transform.x_gate(tableau, emitter_index)\n", 0), "index.space", "both index spaces"),
     Knockout("one-qubit-gate-split-strict", TRS, sub_once("        if index >= self.n_photon:\n            reg_type = \"e\"", "        if index > self.n_photon:\n            reg_type = \"e\""), "index.split", "position n_photon"),
     Knockout("one-qubit-gate-emitter-register-sign", TRS, sub_once("            reg = index - self.n_photon\n", "            reg = self.n_photon - index\n"), "index.split", "register is"),
